@@ -209,11 +209,6 @@ def run_case(case, rng):
             from mon import defaults as Dflt
             Dflt.in_force(case, "FSCBoundedPolicyIteration", bpi_mod.FSCBoundedPolicyIteration(controller_state_count=nn), passed={})
             learner = bpi_mod.FSCBoundedPolicyIteration(controller_state_count=nn, iterations=iters, seed=seed)
-            if rng.random() < 0.25:
-                # the same learner object is first trained on another POMDP (other sizes); nothing may leak
-                other = Bd.build_pomdp(GP.random_pomdp(rng), explicit=False)
-                case.call("FSCBoundedPolicyIteration.train_on(other problem first)", learner.train_on, other, facts=facts)
-                case.count("learners_reused")
             # probe on the LP solver the improvement step calls: the last solution it returned (for the facts of an exception)
             import scipy.optimize as _so
             lp_last = {}
@@ -231,9 +226,18 @@ def run_case(case, rng):
                 f_ = dict(facts)
                 f_.update(lp_last)
                 e_, w_ = lp_last.get("last_lp_epsilon", 1.0), lp_last.get("last_lp_smallest_positive_weight", 1.0)
-                # HiGHS' feasibility / optimality tolerance is 1e-7; numpy.isclose's absolute tolerance (the library's zero test) 1e-8
-                f_["last_lp_solution_at_solver_noise_level"] = bool(1e-8 < abs(e_) < 1e-6 or 1e-8 < w_ < 1e-6)
+                # HiGHS' feasibility / optimality tolerance is 1e-7; numpy.isclose's absolute tolerance (the library's zero test) 1e-8.
+                # The normalisation assertion is np.allclose(row sums, 1) with rtol 1e-5: an action weight w whose per-observation
+                # sums agree only to the solver's 1e-8..1e-7 fails it as soon as 1e-8 / w > 1e-5, i.e. for w below 1e-3.
+                f_["last_lp_solution_at_solver_noise_level"] = bool(1e-8 < abs(e_) < 1e-6 or 1e-8 < w_ < 1e-3)
                 return f_
+            if rng.random() < 0.25:
+                # the same learner object is first trained on another POMDP (other sizes); nothing may leak
+                other = Bd.build_pomdp(GP.random_pomdp(rng), explicit=False)
+                with wrap(_so, "linprog", after=after_lp):
+                    case.call("FSCBoundedPolicyIteration.train_on(other problem first)", learner.train_on, other, facts=bpi_facts)
+                lp_last.clear()
+                case.count("learners_reused")
             with wrap(bpi_mod, "stochastic_fsc_policy_evaluation_exact", after=after) as w, wrap(_so, "linprog", after=after_lp):
                 res = case.call("FSCBoundedPolicyIteration.train_on", learner.train_on, pomdp, facts=bpi_facts)
             case.count("bpi_runs")
